@@ -3,6 +3,7 @@
 from __future__ import annotations
 
 import os
+import re
 import subprocess
 import tempfile
 import time
@@ -130,6 +131,13 @@ def check_sat(assertions, want_model=True, use_cvc5=True, seeds=(0, 7)) -> Verdi
     then cvc5 on the exported SMT-LIB2."""
     t0 = time.time()
     last_reason = ''
+    s0 = make_solver()
+    s0.set('mbqi', False)
+    s0.set('timeout', 8000)
+    for a in assertions:
+        s0.add(a)
+    if s0.check() == z3.unsat:
+        return Verdict('unsat', 'z3-ematch', time.time() - t0)
     for seed in seeds:
         s = make_solver()
         if seed:
@@ -152,6 +160,50 @@ def check_sat(assertions, want_model=True, use_cvc5=True, seeds=(0, 7)) -> Verdi
     return Verdict('unknown', 'z3+cvc5' if use_cvc5 else 'z3', time.time() - t0, None, last_reason)
 
 
+PORTFOLIO = [
+    # (label, solver params, timeout ms, trust sat?)
+    ('z3-ematch', {'mbqi': False}, 8000, False),
+    ('z3', {}, Z3_TIMEOUT_MS, True),
+    ('z3-seed7', {'random_seed': 7}, Z3_TIMEOUT_MS, True),
+]
+
+
+def check_sat_text(text: str, use_cvc5=True, seeds=(0, 7)) -> Verdict:
+    """Satisfiability of an exported SMT-LIB2 problem, each attempt in a fresh z3 context (worker processes).
+    Portfolio: z3 with E-matching only (only `unsat` is conclusive there), z3 default, another seed, then cvc5."""
+    t0 = time.time()
+    last = ''
+    cvc5_done = False
+    for label, params, tmo, trust_sat in PORTFOLIO:
+        if label == 'z3' and use_cvc5 and not cvc5_done:
+            cvc5_done = True
+            v = cvc5_check_text(text, 20)
+            if v.status != 'unknown':
+                v.seconds = time.time() - t0
+                return v
+            last += ' | cvc5: ' + v.reason
+        ctx = z3.Context()
+        s = z3.Solver(ctx=ctx)
+        s.set('rlimit', Z3_RLIMIT)
+        s.set('timeout', tmo)
+        for k, v in params.items():
+            s.set(k, v)
+        s.from_string(text)
+        r = s.check()
+        if r == z3.unsat:
+            return Verdict('unsat', label, time.time() - t0)
+        if r == z3.sat and trust_sat:
+            return Verdict('sat', label, time.time() - t0)
+        last = str(s.reason_unknown()) if r != z3.sat else 'sat without model-based quantifier check'
+    if use_cvc5:
+        v = cvc5_check_text(text)
+        v.seconds = time.time() - t0
+        if v.status != 'unknown':
+            return v
+        last += ' | cvc5: ' + v.reason
+    return Verdict('unknown', 'z3+cvc5' if use_cvc5 else 'z3', time.time() - t0, None, last)
+
+
 def to_smt2(assertions) -> str:
     s = z3.Solver()
     for a in assertions:
@@ -161,9 +213,14 @@ def to_smt2(assertions) -> str:
 
 
 def cvc5_check(assertions, timeout=None) -> Verdict:
+    return cvc5_check_text(to_smt2(assertions), timeout)
+
+
+def cvc5_check_text(txt, timeout=None) -> Verdict:
     t0 = time.time()
-    txt = to_smt2(assertions)
-    txt = '(set-logic ALL)\n' + txt
+    # z3 prints its internal in-range variant of seq.nth; cvc5 knows only seq.nth (equal on in-range indices)
+    txt = '(set-logic ALL)\n' + txt.replace('seq.nth_i', 'seq.nth').replace('seq.nth_u', 'seq.nth')
+    txt = re.sub(r'\(_ (spec_\w+) \d+\)', r'\1', txt)  # z3's notation for recursive occurrences
     with tempfile.NamedTemporaryFile('w', suffix='.smt2', delete=False, dir=os.environ.get('PYVC_TMP', None)) as fh:
         fh.write(txt)
         path = fh.name
@@ -189,10 +246,91 @@ def cvc5_check(assertions, timeout=None) -> Verdict:
             pass
 
 
-def quick_feasible(assertions, rlimit=2000000) -> bool:
-    """Cheap feasibility pre-check used at branches.  Returns False only if z3 proves unsat."""
+_hq_cache = {}
+
+
+def has_quantifier(e) -> bool:
+    k = e.get_id()
+    if k in _hq_cache:
+        return _hq_cache[k]
+    res = False
+    stack = [e]
+    seen = set()
+    while stack:
+        x = stack.pop()
+        i = x.get_id()
+        if i in seen:
+            continue
+        seen.add(i)
+        if z3.is_quantifier(x) and not x.is_lambda():
+            res = True
+            break
+        if z3.is_quantifier(x):
+            stack.append(x.body())
+        else:
+            stack.extend(x.children())
+    _hq_cache[k] = res
+    return res
+
+
+def mentions(e, consts) -> bool:
+    """does term e contain any of the given constants?"""
+    ids = {c.get_id() for c in consts}
+    stack = [e]
+    seen = set()
+    while stack:
+        x = stack.pop()
+        i = x.get_id()
+        if i in seen:
+            continue
+        seen.add(i)
+        if i in ids:
+            return True
+        if z3.is_quantifier(x):
+            stack.append(x.body())
+        else:
+            stack.extend(x.children())
+    return False
+
+
+_abs_cache = {}
+
+
+def abstract_quantifiers(e):
+    """replace every (non-lambda) quantified sub-formula by a fresh propositional constant: an over-approximation"""
+    k = e.get_id()
+    if k in _abs_cache:
+        return _abs_cache[k]
+    if not has_quantifier(e):
+        _abs_cache[k] = e
+        return e
+    subs = []
+    stack = [e]
+    seen = set()
+    while stack:
+        x = stack.pop()
+        i = x.get_id()
+        if i in seen:
+            continue
+        seen.add(i)
+        if z3.is_quantifier(x) and not x.is_lambda():
+            subs.append((x, z3.Bool(f'qabs!{i}')))
+        elif z3.is_quantifier(x):
+            continue
+        else:
+            stack.extend(x.children())
+    res = z3.substitute(e, *subs) if subs else e
+    _abs_cache[k] = res
+    return res
+
+
+def quick_feasible(assertions, rlimit=2000000, timeout_ms=600) -> bool:
+    """Cheap feasibility pre-check used at branches.  Returns False only if z3 proves unsat.  Quantified facts are
+    left out (a sound over-approximation of feasibility: an infeasible path explored anyway only yields obligations
+    with an unsatisfiable path condition)."""
     s = z3.Solver()
     s.set('rlimit', rlimit)
+    s.set('timeout', timeout_ms)
     for a in assertions:
-        s.add(a)
+        s.add(abstract_quantifiers(a))
     return s.check() != z3.unsat
